@@ -35,7 +35,7 @@ def in_bounds(r, cfg):
     return i0 + r["n"] <= tg["len"]
 
 
-def main(ctx, pairs=None, budget_list=None, hist=None, selector=in_bounds, label="C03"):
+def main(ctx, pairs=None, budget_list=None, hist=None, selector=in_bounds, label="C03", deep_mems=160):
     ev = ctx.ev
     quick = ctx.quick
     pairs = pairs or (logixlib.TYPE_PAIRS[:5] if quick else logixlib.TYPE_PAIRS)
@@ -64,8 +64,8 @@ def main(ctx, pairs=None, budget_list=None, hist=None, selector=in_bounds, label
         mems = cat.mems
         if quick and len(mems) > 40:
             mems = [mems[0]] + rng.sample(mems[1:], 39)
-        elif not quick and len(mems) > 160:
-            mems = [mems[0]] + rng.sample(mems[1:], 159)
+        elif not quick and len(mems) > deep_mems:
+            mems = [mems[0]] + rng.sample(mems[1:], deep_mems - 1)
         def settle(lines):
             """validate and report a batch at once (the thorough tier runs millions of steps: nothing is kept)"""
             for ln in lines:
